@@ -228,7 +228,26 @@ def _(c):
         return And_(SBool(arcs.t == sym.LCONS(T(first), sym.LCONS(T(second), tail.t))),
                     beq(slc(string, 0, C), S.tlv(0x06, cat(S.subid(40 * first + second), S.oid_body(tail)))))
     c.ensures_witnessed(canonical, "consumed-bytes-are-the-X.690-encoding-of-the-returned-arcs")
-    c.assumed_ensures = [lambda string, result: beq(string, cat(SBytes(sym.ENCOID(result[0].t)), result[1]))]
+
+    def callers_view(ex, string, result):
+        # what the key loaders use: string == enc_oid(value) ++ rest, over the abstract sort of OBJECT IDENTIFIER values.  When the
+        # body is verified the value is the list of arcs first :: second :: tail; enc_oid of such a value IS, by definition (X.690
+        # 8.19), 06 || length || subid(40 first + second) || oid_body(tail) - that instance of the definition is added here
+        arcs = result[0]
+        if isinstance(arcs, sym.SOid):
+            return beq(string, cat(SBytes(sym.ENCOID(arcs.t)), result[1]))
+        tail = getattr(ex, "last_list_tail", None)
+        if not isinstance(arcs, sym.SIntList) or tail is None:
+            return False
+        o = OID_OF(arcs.t)
+        first, second = sym.SInt(sym.LAT(arcs.t, 0)), sym.SInt(sym.LAT(arcs.t, 1))
+        ex.pc.append(z3.Implies(arcs.t == sym.LCONS(T(first), sym.LCONS(T(second), tail.t)),
+                                sym.ENCOID(o) == T(S.tlv(0x06, cat(S.subid(40 * first + second), S.oid_body(tail))))))
+        return beq(string, cat(SBytes(sym.ENCOID(o)), result[1]))
+    c.ensures(callers_view, "input-is-enc_oid-of-the-value-followed-by-the-rest")
+
+
+OID_OF = z3.Function("oid_of_arcs", sym.IntList, sym.OidSort)          # the OBJECT IDENTIFIER value with these arcs
 
 
 def world_oids(ex, W):
